@@ -37,12 +37,7 @@ impl MO {
             // failure and nothing more: which class or wording a type error, a bad index or a
             // propagated failure carries is not theirs to fix, so classes are compared only
             // up to that partition
-            (MO::Fail(cs), Outcome::Fail(c, _)) => {
-                cs.is_empty()
-                    || cs.contains(c)
-                    || (cs.iter().all(|x| x.is_absent()) && c.is_absent())
-                    || (cs.iter().all(|x| !x.is_absent()) && !c.is_absent())
-            }
+            (MO::Fail(cs), Outcome::Fail(c, _)) => cs.is_empty() || cs.iter().any(|x| x.is_absent() == c.is_absent()),
             (MO::AnyOf(alts), o) => alts.iter().any(|a| a.accepts(o)),
             _ => false,
         }
@@ -453,6 +448,10 @@ impl<'a> Model<'a> {
                 let o = self.definite(a)?;
                 let ix = self.definite(i)?;
                 let (ov, iv) = match (o, ix) {
+                    (MO::Fail(mut c), MO::Fail(d)) => {
+                        c.extend(d);
+                        return Ok(MO::Fail(c));
+                    }
                     (MO::Fail(c), _) => return Ok(MO::Fail(c)),
                     (_, MO::Fail(c)) => return Ok(MO::Fail(c)),
                     (MO::Val(o), MO::Val(i)) => (o, i),
@@ -513,6 +512,11 @@ impl<'a> Model<'a> {
                 let l = self.definite(a)?;
                 let r = self.definite(b)?;
                 Ok(match (l, r) {
+                    // both operands fail: no statement says which failure is reported
+                    (MO::Fail(mut c), MO::Fail(d)) => {
+                        c.extend(d);
+                        MO::Fail(c)
+                    }
                     (MO::Fail(c), _) => MO::Fail(c),
                     (_, MO::Fail(c)) => MO::Fail(c),
                     (MO::Val(V::Int(x)), MO::Val(V::Int(y))) => match x.checked_add(y) {
@@ -531,6 +535,11 @@ impl<'a> Model<'a> {
                 let l = self.definite(a)?;
                 let r = self.definite(b)?;
                 Ok(match (l, r) {
+                    // both operands fail: no statement says which failure is reported
+                    (MO::Fail(mut c), MO::Fail(d)) => {
+                        c.extend(d);
+                        MO::Fail(c)
+                    }
                     (MO::Fail(c), _) => MO::Fail(c),
                     (_, MO::Fail(c)) => MO::Fail(c),
                     (MO::Val(x), MO::Val(y)) => {
